@@ -154,6 +154,7 @@ def extra(ctx):
     n_ok = 0
     for (ln, io), m in zip(keep, mo):
         if io.split() == m.split(): n_ok += 1
+        elif vlib.timed_out(ctx, m): pass
         else: ev.append({'kind': 'mt-seeded', 'cases': [ln[:20000]], 'implementation_output': io[:1500], 'model_output': m[:1500], 'note': 'outputs differ from the model run from the dumped state', 'key': ln[:200], 'theorem': 'C19_mt_stream'})
     ctx.extra_cov['mt_seeded_sequences_agree'] = n_ok; ctx.extra_cov['mt_seeding_matches_oracle'] = n_seed_ok
     # (b) frequencies
@@ -177,6 +178,7 @@ def extra(ctx):
     n_f = 0
     for (ln, o), m in zip(origin, co):
         if m.strip() == '1': n_f += 1
+        elif vlib.timed_out(ctx, m): pass
         else:
             t = [int(v, 16) for v in o.split()]
             worst = sorted(range(1, len(t)), key=lambda i: -abs(t[i] - t[0] / (8 if ln.split()[6] == '2' else 2)))[:6]
